@@ -2,7 +2,7 @@
     Walk/GetAttr.  Only statements; proofs in Fsx/ReaddirProofs.v,
     Fsx/QidMapProofs.v, Fsx/QidConc.v. *)
 From Coq Require Import NArith String List.
-From P9V Require Import Base.Str gen.ConstGen gen.FsGen Fsx.Readdir Fsx.LocalDir Fsx.Paging Fsx.ReaddirProofs
+From P9V Require Import Base.Str gen.ConstGen gen.FsGen19 Fsx.Readdir Fsx.LocalDir Fsx.Paging Fsx.ReaddirProofs
      Fsx.QidMap Fsx.QidMapProofs Fsx.Qid Fsx.LocalQidStable Fsx.FsGenSpec19.
 Import ListNotations.
 Open Scope list_scope.
